@@ -200,6 +200,10 @@ impl DigitString {
         let l = self.buffer.len();
         if l <= positions {
             return {
+                if all_zeros(&self.buffer) {
+                    // nothing on the starting position
+                    self.buffer[l - 1] = b'1';
+                }
                 self.buffer.resize(l + positions, b'0');
                 Ok(())
             };
